@@ -1,0 +1,7 @@
+//go:build !verif
+// +build !verif
+
+package cluster
+
+// Hook for the verification harness (build tag `verif`); a no-op without it.
+func verifYield(point string) {}
